@@ -380,7 +380,7 @@ func c07PkLen(r *vhRng, mask int) int {
 }
 
 func c07HashBytes(r *vhRng) []byte {
-	switch r.Intn(12) {
+	switch r.Intn(40) {
 	case 0:
 		return make([]byte, 32)
 	case 1:
